@@ -305,6 +305,8 @@ impl<C: IterConfig> BucketIter<C> {
         // Check live indexes first
         if let Some((segment_id, index)) = live_indexes.get(&bucket_id) {
             let segment_id = segment_id.load(Ordering::Acquire);
+            #[cfg(feature = "verif-hooks")]
+            crate::verif::pause("iter:after-segment-id-load");
             let matches = match dir {
                 IterDirection::Forward => segment_id >= next_segment_id,
                 IterDirection::Reverse => segment_id <= next_segment_id,
@@ -354,6 +356,8 @@ impl<C: IterConfig> BucketIter<C> {
             });
         }
 
+        #[cfg(feature = "verif-hooks")]
+        crate::verif::pause("iter:before-closed-segments");
         let (reply_tx, reply_rx) = oneshot::channel();
         let config_clone = config.clone();
         reader_pool.spawn(move |with_readers| {
